@@ -279,7 +279,34 @@ def template_grammars():
               'Wrap1': 'template', 'wp': 'param', 'TabCls': 'class', 'ta': 'field', 'tb': 'field', 'tc': 'field',
               'Misc': 'class', 'ma': 'field', 'mb': 'field', 'mc': 'field', 'md': 'field', 'me': 'field', 'mf': 'field'}
     out.append(('constructs', dict(name=None, extends=None, stmts=stmts3), roles3))
+    # a grammar that extends another one: what the derived grammar itself defines (rules, classes,
+    # fields, a template, a class template, parameters, a let variable) is renamed; the parent
+    # (PARENTS['derived'], compiled first under a fixed name) is not
+    stmts4 = [
+        ('rule', 'PItem', None, ('alt', [('ref', 'DPair'), ('call', 'DBox', [('ref', 'PWord')]), ('call', 'DWrap', [('ref', 'PWord')]), ('ref', 'DList'), ('super', 'PItem')])),
+        ('class', 'DPair', None, [('field', 'dk', ('right', ('str', '@'), ('ref', 'PWord'))), ('field', 'dv', ('right', ('str', '='), ('ref', 'DNum'))), ('field', 'de', ('py', 'dk'))]),
+        ('class', 'DBox', ['dp'], [('field', 'db', ('right', ('str', '['), ('left', ('ref', 'dp'), ('str', ']'))))]),
+        ('rule', 'DWrap', ['dq'], ('let', 'dl', ('str', '<'), ('seq', [('ref', 'dq'), ('str', '>'), ('py', 'dl')]))),
+        ('rule', 'DList', None, ('right', ('str', '('), ('left', ('sep', ('ref', 'DNum'), ('str', ','), {'_op': '//'}), ('str', ')')))),
+        ('rule', 'DNum', None, N),
+    ]
+    roles4 = {'DPair': 'class', 'dk': 'field', 'dv': 'field', 'de': 'field', 'DBox': 'class-template', 'dp': 'param', 'db': 'field',
+              'DWrap': 'template', 'dq': 'param', 'dl': 'let', 'DList': 'rule', 'DNum': 'rule'}
+    out.append(('derived', dict(name='vt_c20_derived', extends='vt_c20_parent', stmts=stmts4), roles4))
     return out
+
+
+PARENTS = {'derived': 'grammar vt_c20_parent\nstart = PItem*\nPItem = PWord\nPWord = /[a-z]+/\nignore PBlank = / +/\n'}
+_parents_built = {}
+
+
+def ensure_parent(tag):
+    """The parent of a derived template grammar is compiled once per worker and stays installed."""
+    if tag in PARENTS and tag not in _parents_built:
+        r = observe.compile_grammar(PARENTS[tag])
+        if r[0] != 'ok':
+            raise RuntimeError('C20 parent grammar does not compile: %r' % (r,))
+        _parents_built[tag] = r[1]
 
 
 INPUTS = {
@@ -287,7 +314,10 @@ INPUTS = {
              '(a:1,2;(b))', 'a:', '(a', '<a b c>', '$', 'a : 1 , 2', '%22 <a b>', '%1 <a>', '%1 <>', '&a <b>', '&a <a>', '%22 <a> &x <y>', '<a b>', '<a b>22'],
     'constructs': ['', 'k a b~c', 'k a b~a', 't a~!', '@a b~1', '#<a+b!> c', '#<a> b', '^a 1,2 x;', '^a ;;..', '^a 1 22 ;.',
                    'k a b~c t d~! @e f~2 #<g+h> i ^j 1,2,3 9 ; ..', 'k a b', '@a b~', '#<a+> c', '^', '^a 1, ;', '*a b', '*a',
+                   ('rule', 'Misc', '^a 1,2 x;'), ('rule', 'KwLet', 'k a b~c'), ('rule', 'UseRep', '*a b'),
                    ('entry', 'RepC', (2,), 'a b'), ('entry', 'RepC', (1,), 'a b'), ('entry', 'RepC', (0,), ''), ('entry', 'RepC', (3,), 'a b')],
+    'derived': ['', 'a b', '@a=12', '@a=1 b', '[a]', '[a] [b]', '<a>', 'a<b>', '(1,22)', '()', '@a=', '[a', '<a', '(1,', 'a @b=3 [c] <d> (4,5) e', '@ a = 1',
+                ('rule', 'DNum', '123'), ('rule', 'DList', '(1,2)'), ('rule', 'DPair', '@a=1'), ('rule', 'DNum', 'x')],
     'optable': ['1', '1+2', '1+2*3', '-1!', '(1+2)*3', '12x+1', '(1', '1+', '((1))!', '1*(2+3)!'],
 }
 
@@ -295,7 +325,11 @@ INPUTS = {
 def exercise(g, text, mp=None):
     """parse + the documented tree API; returns a normal form (or the exception).  An input may be a
     tuple ('entry', class template, arguments, text): the class template is then the entry point."""
-    if isinstance(text, tuple):
+    if isinstance(text, tuple) and text[0] == 'rule':
+        # a rule / class of the grammar as entry point: ('rule', name, text)
+        _, rname, text = text
+        o = observe.observe(g, text, entry=(mp or {}).get(rname, rname))
+    elif isinstance(text, tuple):
         _, cname, args, text = text
         o = observe.observe(g, text, entry=((mp or {}).get(cname, cname), args))
     else:
@@ -394,6 +428,7 @@ def run_shard(rec):
     for tag, G, roles in template_grammars():
         # (hand-written grammars; the conservative template analysis of vlib/gen.py rejects them
         # because parameters are assumed nullable -- they are well-formed by inspection)
+        ensure_parent(tag)
         r = observe.compile_grammar(gast.render_grammar(G))
         if r[0] != 'ok':
             rec.violation('template-grammar-error', 'Grammar() of the original template', dict(kind='rename', template=tag), 'module', r)
@@ -434,6 +469,7 @@ def replay(rec, rep):
     for tag, G, roles in template_grammars():
         if tag != case.get('template'):
             continue
+        ensure_parent(tag)
         g = observe.compile_grammar(gast.render_grammar(G))[1]
         inputs = INPUTS[tag]
         base = {t: exercise(g, t) for t in inputs}
